@@ -12,6 +12,7 @@ import (
 	"runtime"
 	"strings"
 	"sync"
+	"testing/iotest"
 
 	carv2 "github.com/ipld/go-car/v2"
 )
@@ -107,6 +108,8 @@ func runReaderCase(c *rdCase, file []byte, src string, dir string) (string, stri
 	case "io.Reader/1", "io.Reader/7": // short reads
 		cnt = &countingReader{r: bytes.NewReader(file)}
 		r = &chunkReader{cnt, int(src[len(src)-1] - '0')}
+	case "DataErrReader": // a source that hands out its last bytes together with io.EOF (decompressors, HTTP bodies)
+		r = iotest.DataErrReader(&plainReader{bytes.NewReader(file)})
 	case "Reader.DataReader": // the payload reader of a v2.Reader over a CARv1 is the whole file
 		rd, err := carv2.NewReader(bytes.NewReader(file))
 		if err != nil {
@@ -234,7 +237,7 @@ func runReaderReplay(args []string) int {
 				}
 				file := c.A.build()
 				cs := choiceString(c.Hist)
-				for _, src := range []string{"bytes.Reader", "io.Reader", "os.File", "io.Reader/1", "bytes.Reader+trusted", "io.Reader/7+trusted", "io.ByteReader", "Reader.DataReader"} {
+				for _, src := range []string{"bytes.Reader", "io.Reader", "os.File", "io.Reader/1", "bytes.Reader+trusted", "io.Reader/7+trusted", "io.ByteReader", "DataErrReader", "Reader.DataReader"} {
 					if src == "Reader.DataReader" && c.A.Ver != 1 {
 						continue
 					}
